@@ -56,7 +56,18 @@ func FetchAlternative(a *[]AlternativeWithCriteria, id Alternative) AlternativeW
 }
 
 func (dm *DecisionMaker) AlternativesToConsider() *[]AlternativeWithCriteria {
-	return FetchAlternatives(&dm.KnownAlternatives, &dm.ChoseToMake)
+	return FetchAlternatives(&dm.KnownAlternatives, dm.distinctChosenAlternatives())
+}
+
+// an alternative named more than once in ChoseToMake is still considered once (at its first position)
+func (dm *DecisionMaker) distinctChosenAlternatives() *[]Alternative {
+	distinct := make([]Alternative, 0, len(dm.ChoseToMake))
+	for _, id := range dm.ChoseToMake {
+		if !utils.ContainsString(&distinct, &id) {
+			distinct = append(distinct, id)
+		}
+	}
+	return &distinct
 }
 
 func FetchAlternatives(a *[]AlternativeWithCriteria, ids *[]Alternative) *[]AlternativeWithCriteria {
